@@ -284,10 +284,6 @@ def line_elem(c):
 
 def cmp_elem(c, r, out):
     d = c["d"]
-    if isinstance(r, str) and c["op"] in ("hmm", "as_matrix", "hom_matrix") and "same number of dimensions" in r:
-        # F-08a: the un-batched model ops h.hmm/h.as_matrix cannot see the batch; the batched ops (stream `forms`)
-        # model this raise exactly.
-        return None
     if c["op"] in ("apply", "applyvec"):
         if isinstance(r, str):
             return f"impl raised {r[:90]}"
@@ -487,8 +483,7 @@ def line_euler(c):
     hg = 1 if c["homogeneous"] else 0
     if nang == 1:
         return f"euler.matrix2 {hg} {proto.fr(cs[0])} {proto.fr(sn[0])}"
-    lead = len(c["shape"]) - 1
-    return f"euler.matrix3 {enc_str(c['order'])} {lead} {hg} 0 {proto.vec(proto.flat(cs))} {proto.vec(proto.flat(sn))}"
+    return f"euler.matrix3 {enc_str(c['order'])} {hg} 0 {proto.vec(proto.flat(cs))} {proto.vec(proto.flat(sn))}"
 
 
 def _cs2(a, i):
@@ -554,7 +549,7 @@ def _matrix_tensor(c):
 def impl_angles(c):
     m = _matrix_tensor(c)
     a = U.euler_rotation_angles(m, order=c["order"])
-    want = c["lead"] + ([3] if c["d"] == 3 else [])
+    want = c["lead"] + ([3] if c["d"] == 3 else [1])
     if list(a.shape) != want:
         return f"err:shape:{list(a.shape)}"
     return {"values": proto.flat(a.reshape(-1, 3 if c["d"] == 3 else 1)[0])}
@@ -584,7 +579,7 @@ def cmp_angles(c, r, out):
         return f"model says {out}, impl returned {r['values']}"
     v = [float(x) for x in proto.parse_vec(out)]
     if c["d"] == 2:
-        want = [math.acos(max(-1.0, min(1.0, v[0]))) if abs(v[0]) <= 1 else float("nan")]
+        want = [math.atan2(v[0], v[1])]
     else:
         want = [math.atan2(v[0], v[1]), math.acos(v[2]) if abs(v[2]) <= 1 else float("nan"), math.atan2(v[3], v[4])]
     for k, (a, b) in enumerate(zip(r["values"], want)):
@@ -831,7 +826,7 @@ def line_tx(c):
             if d == 2:
                 # invert = transpose = (c, -s)
                 return f"euler.matrix2 0 {fr(cs[0])} {fr(-sn[0] if c['invert'] else sn[0])}"
-            return f"euler.matrix3 {enc_str(c['order'])} 1 0 {inv} {vec(proto.flat(cs))} {vec(proto.flat(sn))}"
+            return f"euler.matrix3 {enc_str(c['order'])} 0 {inv} {vec(proto.flat(cs))} {vec(proto.flat(sn))}"
         if c["cls"] == "QuaternionRotation":
             q = t.data()[i]
             n = torch.linalg.vector_norm(q)
@@ -1133,8 +1128,8 @@ def check_euler_roundtrip(c):
     name = "2d" if c["d"] == 2 else (o or "ZXZ")
     try:
         b = U.euler_rotation_angles(R, order=o)
-        if c["d"] == 2 and b.ndim == 1:
-            b = b.unsqueeze(-1)
+        if list(b.shape) != list(a.shape):
+            return (f"C08:euler_rotation_angles:shape:{name}", f"angles of shape {list(b.shape)} for {list(a.shape)} expected")
         R2 = U.euler_rotation_matrix(b, order=o)
     except Exception as e:
         return (f"C08:euler_rotation_angles:raises:{name}", f"{type(e).__name__}: {str(e)[:100]}")
